@@ -491,10 +491,9 @@ func (p *ProjectRunner) runningProcessesReverseDependencies() map[string]map[str
 		for k := range process.procConf.DependsOn {
 			if runningProc, ok := p.runningProcesses[k]; ok {
 				if _, ok := reverseDependencies[runningProc.getName()]; !ok {
-					dep := make(map[string]*Process)
-					dep[process.getName()] = process
-					reverseDependencies[runningProc.getName()] = dep
+					reverseDependencies[runningProc.getName()] = make(map[string]*Process)
 				}
+				reverseDependencies[runningProc.getName()][process.getName()] = process
 			} else {
 				continue
 			}
